@@ -1,7 +1,7 @@
 #!/bin/sh
 # tools/runall.sh quick|thorough [seed]  -- run every check, print one summary line each
 TIER=${1:-quick}; SEED=${2:-0}
-cd "$(dirname "$0")/.."
+cd "$(dirname "$0")/.." && mkdir -p .work
 for p in C01 C02 C03 C04 C05 C06 C07 C08 C09 C10 C11 C12 C13 C14 C15 C16 C17 C18 C19 C20; do
   s=$(date +%s)
   VERIF_SEED=$SEED ./bin/check $p --tier $TIER > .work/run-$p-$TIER-$SEED.log 2>&1; rc=$?
